@@ -23,6 +23,9 @@ use crate::p2p::{P2p, P2pError};
 use crate::store::{BlockRanges, Store, StoreError};
 use crate::utils::{OneshotSenderExt, TimeExt};
 
+#[cfg(eigerco_lumina_verif)]
+pub(crate) mod verif_daser;
+
 const MAX_SAMPLES_NEEDED: usize = 16;
 const GET_SAMPLE_MIN_TIMEOUT: Duration = Duration::from_secs(10);
 const PRUNER_THRESHOLD: u64 = 512;
